@@ -190,7 +190,7 @@ theorem loop_ok_sound (g : Graph α) :
           intro k hk hc hn
           exact ⟨k+1, by omega, by simp [chain, hg, hc], hn⟩
         cases hgt : g t with
-        | none => simp [hgt] at h
+        | none => simp only [hgt] at h; split at h <;> cases h
         | some y =>
           simp only [hgt] at h
           split at h
@@ -260,15 +260,15 @@ theorem loop_complete (g : Graph α) :
               simp only [Bool.false_eq_true, if_false]
               exact ih t slow true k n (behind_step_keep g slow node t hb hg) hc hn (by omega)
 
-/-- a missing entry at hop `j ≤ m` (i.e. `j ≤ depth + 1`) is reported as not-exist -/
+/-- a missing entry at hop `j < m` (i.e. `j ≤ depth`: within the budget) is reported as not-exist -/
 theorem loop_notfound (g : Graph α) :
-    ∀ m node slow adv j q, Behind g slow node → chain g j node = some q → g q = none → j ≤ m → 0 < m →
+    ∀ m node slow adv j q, Behind g slow node → chain g j node = some q → g q = none → j < m →
       loop g m node slow adv = .notExist := by
   intro m
   induction m with
-  | zero => intro node slow adv j q _ _ _ _ hm; omega
+  | zero => intro node slow adv j q _ _ _ hm; omega
   | succ m ih =>
-    intro node slow adv j q hb hc hq hj _
+    intro node slow adv j q hb hc hq hj
     simp only [loop]
     cases j with
     | zero =>
@@ -285,14 +285,11 @@ theorem loop_notfound (g : Graph α) :
         | link t =>
           simp only [hg] at hc ⊢
           cases hgt : g t with
-          | none => rfl
+          | none =>
+            have hm : m ≠ 0 := by omega
+            simp [hm]
           | some y =>
             simp only []
-            -- j ≥ 1 here: t exists but q does not
-            have hj1 : 0 < j := by
-              cases j with
-              | zero => simp only [chain, Option.some.injEq] at hc; subst hc; simp [hq] at hgt
-              | succ j => omega
             have hne : t ≠ slow := by
               intro heq
               subst heq
@@ -305,15 +302,15 @@ theorem loop_notfound (g : Graph α) :
             | true =>
               obtain ⟨s', hs, hb'⟩ := behind_step_adv g slow node t hb hg (by simp [hgt])
               simp only [if_true, hs]
-              exact ih t s' false j q hb' hc hq (by omega) (by omega)
+              exact ih t s' false j q hb' hc hq (by omega)
             | false =>
               simp only [Bool.false_eq_true, if_false]
-              exact ih t slow true j q (behind_step_keep g slow node t hb hg) hc hq (by omega) (by omega)
+              exact ih t slow true j q (behind_step_keep g slow node t hb hg) hc hq (by omega)
 
-/-- not-exist is only ever reported for a missing entry within `m` hops -/
+/-- not-exist is only ever reported for a missing entry within the budget (hop `j < m`, i.e. `j ≤ depth`) -/
 theorem loop_notExist_sound (g : Graph α) :
     ∀ m node slow adv, Behind g slow node → loop g m node slow adv = .notExist →
-      ∃ j q, j ≤ m ∧ chain g j node = some q ∧ g q = none := by
+      ∃ j q, j < m ∧ chain g j node = some q ∧ g q = none := by
   intro m
   induction m with
   | zero => intro node slow adv _ h; simp [loop] at h
@@ -327,12 +324,15 @@ theorem loop_notExist_sound (g : Graph α) :
       | term k => simp [hg] at h
       | link t =>
         simp only [hg] at h
-        have lift : ∀ j q, j ≤ m → chain g j t = some q → g q = none →
-            ∃ j q, j ≤ m + 1 ∧ chain g j node = some q ∧ g q = none := by
+        have lift : ∀ j q, j < m → chain g j t = some q → g q = none →
+            ∃ j q, j < m + 1 ∧ chain g j node = some q ∧ g q = none := by
           intro j q hj hc hq
           exact ⟨j+1, q, by omega, by simp [chain, hg, hc], hq⟩
         cases hgt : g t with
-        | none => exact ⟨1, t, by omega, by simp [chain, hg], hgt⟩
+        | none =>
+          simp only [hgt] at h
+          have hm : m ≠ 0 := by intro h0; simp [h0] at h
+          exact ⟨1, t, by omega, by simp [chain, hg], hgt⟩
         | some y =>
           simp only [hgt] at h
           split at h
@@ -370,7 +370,7 @@ theorem loop_cycle_real (g : Graph α) :
           | zero => simp [chain]
           | succ k => simpa [chain, hg] using ht k
         cases hgt : g t with
-        | none => simp [hgt] at h
+        | none => simp only [hgt] at h; split at h <;> cases h
         | some y =>
           simp only [hgt] at h
           split at h
@@ -412,7 +412,10 @@ theorem loopF_eq_loop (g : Graph α) :
         | link t =>
           simp only []
           cases hgt : g t with
-          | none => rfl
+          | none =>
+            have e : (((m + 1 : Nat) : Int) - 1 = 0) ↔ m = 0 := by omega
+            simp only [e]
+            split <;> rfl
           | some y =>
             simp only []
             split
@@ -438,7 +441,7 @@ theorem specWalk_mustOk (g : Graph α) :
       cases x with
       | term k =>
         cases k <;> simp [hg] at h <;> (subst h; exact ⟨0, by omega, rfl, by simp [isReal, hg]⟩)
-      | link t => simp only [hg] at h; split at h <;> cases h
+      | link t => simp [hg] at h
   | succ b ih =>
     intro p n h
     unfold specWalk at h
@@ -467,7 +470,7 @@ theorem specWalk_mustNotExist (g : Graph α) :
       | term k =>
         cases k <;> simp [hg] at h
         exact ⟨0, p, by omega, rfl, by simp [isGone, hg]⟩
-      | link t => simp only [hg] at h; split at h <;> cases h
+      | link t => simp [hg] at h
   | succ b ih =>
     intro p h
     unfold specWalk at h
@@ -483,39 +486,33 @@ theorem specWalk_mustNotExist (g : Graph α) :
         obtain ⟨k, q, hk, hc, hq⟩ := ih t h
         exact ⟨k+1, q, by omega, by simp [chain, hg, hc], hq⟩
 
-/-- `boundary` / `cycleOrDepth`: the entry one hop past the budget exists on the chain and is gone / not gone -/
-theorem specWalk_past (g : Graph α) :
-    ∀ b p, (specWalk g b p = .boundary → ∃ q, chain g (b+1) p = some q ∧ isGone g q = true) ∧
-           (specWalk g b p = .cycleOrDepth → ∃ q, chain g (b+1) p = some q ∧ isGone g q = false) := by
+/-- `cycleOrDepth`: the chain is still running after the last permitted hop — the entry `b` hops along
+is a symlink (whatever its target is) -/
+theorem specWalk_cod (g : Graph α) :
+    ∀ b p, specWalk g b p = .cycleOrDepth → ∃ q, chain g (b+1) p = some q := by
   intro b
   induction b with
   | zero =>
-    intro p
-    unfold specWalk
+    intro p h
+    unfold specWalk at h
     cases hg : g p with
-    | none => simp
+    | none => simp [hg] at h
     | some x =>
       cases x with
-      | term k => cases k <;> simp
-      | link t =>
-        simp only []
-        by_cases hgone : isGone g t = true
-        · simp [hgone, chain, hg]
-        · simp [hgone, chain, hg]
+      | term k => cases k <;> simp [hg] at h
+      | link t => exact ⟨t, by simp [chain, hg]⟩
   | succ b ih =>
-    intro p
-    unfold specWalk
+    intro p h
+    unfold specWalk at h
     cases hg : g p with
-    | none => simp
+    | none => simp [hg] at h
     | some x =>
       cases x with
-      | term k => cases k <;> simp
+      | term k => cases k <;> simp [hg] at h
       | link t =>
-        simp only []
-        have := ih t
-        constructor
-        · intro h; obtain ⟨q, hc, hq⟩ := this.1 h; exact ⟨q, by rw [chain_succ_link g _ p t hg]; exact hc, hq⟩
-        · intro h; obtain ⟨q, hc, hq⟩ := this.2 h; exact ⟨q, by rw [chain_succ_link g _ p t hg]; exact hc, hq⟩
+        simp only [hg] at h
+        obtain ⟨q, hc⟩ := ih t h
+        exact ⟨q, by rw [chain_succ_link g _ p t hg]; exact hc⟩
 
 theorem isReal_isTerm (g : Graph α) (n : α) (h : isReal g n = true) : isTerm g n = true := by
   unfold isReal at h; unfold isTerm
@@ -525,10 +522,10 @@ theorem isReal_isTerm (g : Graph α) (n : α) (h : isReal g n = true) : isTerm g
     | link t => simp [hg] at h
     | term k => rfl
 
-/-- no non-symlink within `D` hops and nothing missing within `D + 1` hops: a cycle or depth error -/
+/-- no non-symlink within `D` hops and no missing entry within `D` hops: a cycle or depth error -/
 theorem resolve_err (g : Graph α) (D : Nat) (p : α)
     (h1 : ∀ k n, k ≤ D → chain g k p = some n → isTerm g n = false)
-    (h2 : ∀ j q, j ≤ D + 1 → chain g j p = some q → g q ≠ none) :
+    (h2 : ∀ j q, j ≤ D → chain g j p = some q → g q ≠ none) :
     resolve g D p = .cycle ∨ resolve g D p = .depth := by
   unfold resolve
   cases hr : loop g (D+1) p p false with
@@ -538,7 +535,7 @@ theorem resolve_err (g : Graph α) (D : Nat) (p : α)
     rw [hn] at this; cases this
   | notExist =>
     obtain ⟨j, q, hj, hc, hq⟩ := loop_notExist_sound g _ _ _ _ (behind_refl g p) hr
-    exact (h2 j q hj hc hq).elim
+    exact (h2 j q (by omega) hc hq).elim
   | cycle => exact Or.inl rfl
   | depth => exact Or.inr rfl
 
@@ -634,5 +631,47 @@ theorem canonical_cleanAbsAux : ∀ (rest st : List String), canonical st = true
         simp only [Bool.or_eq_true, decide_eq_true_eq, not_or] at h1
         simp only [canonical, List.all_cons, Bool.and_eq_true] at h ⊢
         exact ⟨by simp [h1.1, h1.2, h2], h⟩
+
+/-- the specification's own lexical resolver agrees with "does not escape, then `path.Clean`" -/
+theorem resolveLex_eq : ∀ (segs cur : List String),
+    resolveLex cur segs =
+      if escapes cur.length segs then none else some (cleanAbsAux cur.reverse segs).reverse
+  | [], cur => by simp [resolveLex, escapes, cleanAbsAux]
+  | s :: rest, cur => by
+    unfold resolveLex escapes cleanAbsAux
+    by_cases hdot : (s = "." || s = "") = true
+    · simp only [hdot, if_true]
+      exact resolveLex_eq rest cur
+    · simp only [hdot, Bool.false_eq_true, if_false]
+      by_cases hdd : s = ".."
+      · simp only [hdd, if_true]
+        cases hc : cur.reverse with
+        | nil =>
+          have : cur = [] := by simpa using hc
+          subst this
+          simp
+        | cons x xs =>
+          have hne : cur ≠ [] := by intro h; subst h; simp at hc
+          have hlen : cur.length = xs.length + 1 := by
+            have := congrArg List.length hc; simpa using this
+          simp only [hne, if_false, hlen, List.tail_cons]
+          have := resolveLex_eq rest cur.dropLast
+          rw [this]
+          have h1 : cur.dropLast.length = xs.length := by simp [hlen]
+          have h2 : cur.dropLast.reverse = xs := by
+            rw [← List.tail_reverse, hc]; rfl
+          rw [h1, h2]
+      · simp only [hdd, if_false]
+        have := resolveLex_eq rest (cur ++ [s])
+        rw [this]
+        simp
+
+theorem chain_reaches_link_or_end (g : Graph α) (b k : Nat) (p q : α) (h : chain g (b+1) p = some q) (hk : k ≤ b) :
+    ∀ n, chain g k p = some n → isTerm g n = false ∧ g n ≠ none := by
+  intro n hn
+  obtain ⟨n', hn', hl⟩ := chain_prefix_link g b k p q h hk
+  rw [hn] at hn'
+  cases hn'
+  exact ⟨isLink_not_term g n hl, isLink_some g n hl⟩
 
 end Scalibr.Symlink
